@@ -513,6 +513,9 @@ def run(ctx):
     # (single seqno, publish after the last apply, all under the journal lock) - the obligation of C06, part of this property as well
     from . import c06
     c06.check_atomic_publish(ctx, 2)
+    # every tree of the database (new, recovered, meta) must be wired to the same two counters in the same roles (shared obligations, see wiring.py)
+    from . import wiring
+    wiring.check_all(ctx)
     for o in ctx.obligations:
         ctx.samples.append(o.as_dict())
     return ctx.finish()
